@@ -247,6 +247,8 @@ PROP_GEN = {
             "main_deps": ["AutomatonProofs.vo", "GenBase.vo"], "main_cone": ["AutomatonProofs.v", "GenBase.v"]},
     "C03": {"modules": ["RegexNodeGen"], "files": ["GenLinkRegexNode.v", "GenPropsRegexNode.v", "C03g.v"],
             "main_deps": ["SemProofs.vo", "MergeProofs.vo", "GenBase.vo"], "main_cone": ["SemProofs.v", "MergeProofs.v", "GenBase.v"]},
+    "C04": {"modules": ["FastSetGen"], "files": ["GenLinkFastSet.v", "GenPropsFastSet.v", "C04g.v"],
+            "main_deps": ["Minimizer.vo", "GenBase.vo"], "main_cone": ["Minimizer.v", "GenBase.v"]},
     "C13": {"modules": ["BuilderGen"], "files": ["GenLinkBuilder.v", "GenPropsBuilder.v", "C13g.v"],
             "main_deps": ["BuilderProofs.vo", "GenBase.vo"], "main_cone": ["BuilderProofs.v", "GenBase.v"]},
     "C15": {"modules": ["LoopRangeGen"], "files": ["GenLinkLoopRange.v", "GenPropsLoopRange.v", "C15g.v"],
